@@ -30,11 +30,27 @@ var (
 
 var allSlots = append(kslab.Slots(kslab.AllKinds, []string{kslab.Alpha, kslab.Bravo}),
 	kslab.Slot{Kind: kslab.StoragePair, Client: Twin}, kslab.Slot{Kind: kslab.StorageSym, Client: Twin}, kslab.Slot{Kind: kslab.SearchHMAC, Client: Twin},
-	kslab.Slot{Kind: kslab.StorageSym, Client: LongA}, kslab.Slot{Kind: kslab.StorageSym, Client: LongB})
+	kslab.Slot{Kind: kslab.StorageSym, Client: LongA}, kslab.Slot{Kind: kslab.StorageSym, Client: LongB},
+	// key pairs of the long identities as well (generated in the v2 histories of the relocation and
+	// transplant parts only, see historySlots): the public half is stored in the clear and is bound
+	// to its owner by the ring signature alone
+	kslab.Slot{Kind: kslab.StoragePair, Client: LongA}, kslab.Slot{Kind: kslab.StoragePair, Client: LongB})
 
-func genAll(times int) (h []kslab.Op) {
+// historySlots: the slots the representative histories generate keys for. The key pairs of the long
+// identities are part of the v2 histories of the relocation matrix only (v1 public key files are
+// unauthenticated whatever the identity, and every file more costs the matrix 2n cases).
+func historySlots(longPairs bool) []kslab.Slot {
+	if longPairs {
+		return allSlots
+	}
+	return allSlots[:len(allSlots)-2]
+}
+
+func genAll(times int) []kslab.Op { return genAllOf(historySlots(false), times) }
+
+func genAllOf(slots []kslab.Slot, times int) (h []kslab.Op) {
 	for i := 0; i < times; i++ {
-		for _, sl := range allSlots {
+		for _, sl := range slots {
 			h = append(h, kslab.Op{Code: kslab.OpGenerate, Kind: sl.Kind, Client: sl.Client})
 		}
 	}
@@ -49,19 +65,21 @@ type repHistory struct {
 // repHistories: two clients x all six kinds; one key each; rotated once; rotated twice with
 // the current key destroyed everywhere it can be and regenerated for client alpha and the
 // per-store kinds (so bravo's slots have no current key, v2 rings hold destroyed entries).
-func repHistories() []repHistory {
-	h3 := genAll(2)
-	for _, sl := range allSlots {
+func repHistories() []repHistory { return repHistoriesOf(historySlots(false)) }
+
+func repHistoriesOf(slots []kslab.Slot) []repHistory {
+	h3 := genAllOf(slots, 2)
+	for _, sl := range slots {
 		if kslab.Supports(kslab.OpDestroyCurrent, sl.Kind) {
 			h3 = append(h3, kslab.Op{Code: kslab.OpDestroyCurrent, Kind: sl.Kind, Client: sl.Client})
 		}
 	}
-	for _, sl := range allSlots {
+	for _, sl := range slots {
 		if sl.Client != kslab.Bravo {
 			h3 = append(h3, kslab.Op{Code: kslab.OpGenerate, Kind: sl.Kind, Client: sl.Client})
 		}
 	}
-	return []repHistory{{"one-key-each", genAll(1)}, {"rotated-once", genAll(2)}, {"rotated-destroyed-regenerated", h3}}
+	return []repHistory{{"one-key-each", genAllOf(slots, 1)}, {"rotated-once", genAllOf(slots, 2)}, {"rotated-destroyed-regenerated", h3}}
 }
 
 var bindConfigs = []kslab.Config{
@@ -388,7 +406,7 @@ func runBindCase(c bindCase, replay bool) {
 func partBind() {
 	counts := map[string]int{}
 	for _, cfg := range bindConfigs {
-		for _, h := range repHistories() {
+		for _, h := range repHistoriesOf(historySlots(cfg.Format == "v2")) {
 			if !run.Thorough() && h.name == "one-key-each" {
 				continue // subsumed by the rotated states (same files plus history)
 			}
